@@ -1,6 +1,6 @@
 import uuid
 from dataclasses import dataclass, field
-from typing import TYPE_CHECKING, Dict, List, Optional, Tuple, Union, cast
+from typing import TYPE_CHECKING, Any, Dict, List, Optional, Tuple, Union, cast
 
 import jax
 import jax.numpy as jnp
@@ -872,6 +872,18 @@ class CompositeEnvelope:
     def contract(self, *state_objs: "BaseState") -> None:
         pass
 
+    def _check_members(self, states: Any) -> None:
+        """
+        Raises a ValueError if a given state is not registered in this
+        composite envelope (the states are compared by identity)
+        """
+        members = self.state_objs
+        for s in states:
+            if not any(s is m for m in members):
+                raise ValueError(
+                    "Given states have to be members of the composite envelope"
+                )
+
     def combine(self, *state_objs: "BaseState") -> None:
         """
         Combines given states into a product state.
@@ -881,6 +893,7 @@ class CompositeEnvelope:
         state_objs: BaseState
            Accepts many state_objs
         """
+        self._check_members(state_objs)
         from photon_weave.state.base_state import BaseState
         from photon_weave.state.envelope import Envelope
 
@@ -1024,6 +1037,7 @@ class CompositeEnvelope:
         *ordered_states: BaseState
             ordered list of states
         """
+        self._check_members(ordered_states)
         # Check if given states are shared in a product space
         states_are_combined = False
         for ps in self.states:
@@ -1077,6 +1091,7 @@ class CompositeEnvelope:
             Dictionary of outcomes, where the state is key and its outcome measurement
             is the value (int)
         """
+        self._check_members(states)
         from photon_weave.state.envelope import Envelope
         from photon_weave.state.fock import Fock
         from photon_weave.state.polarization import Polarization
@@ -1183,6 +1198,7 @@ class CompositeEnvelope:
         -------
         int: Outcome result of index
         """
+        self._check_members(states)
 
         # Check if the operator dimensions match
         dim = jnp.prod(jnp.array([s.dimensions for s in states]))
@@ -1239,6 +1255,7 @@ class CompositeEnvelope:
         identity_check: bool
             True by default, if true the method checks if kraus condition holds
         """
+        self._check_members(states)
 
         from photon_weave.state.envelope import Envelope
         from photon_weave.state.fock import Fock
@@ -1315,6 +1332,7 @@ class CompositeEnvelope:
             Traced out system including only the requested states in tesored
             in the order in which the states are given
         """
+        self._check_members(states)
         product_states = [
             p for p in self.states if any(so in p.state_objs for so in states)
         ]
@@ -1357,6 +1375,7 @@ class CompositeEnvelope:
         bool
             True if the resizing was succesfull
         """
+        self._check_members((fock,))
         from photon_weave.state.fock import Fock
 
         # Check if fock is Fock type
@@ -1395,6 +1414,7 @@ class CompositeEnvelope:
         states: BaseState
             States onto which the operator should be applied
         """
+        self._check_members(states)
 
         if len(states) == 1:
             if not isinstance(states[0].index, tuple):
